@@ -266,7 +266,11 @@ impl Expression for Op {
                 } else if lhs_value == Some(Value::Boolean(true)) {
                     // lhs is always "true"
                     // keep the fallibility of both operands, but change it to a boolean
-                    let rhs_def = self.rhs.apply_type_info(&mut state);
+                    // (the rhs must be a boolean or null for `&&` to succeed)
+                    let rhs_def = self
+                        .rhs
+                        .apply_type_info(&mut state)
+                        .fallible_unless(K::null().or_boolean());
                     let fallible = lhs_def.is_fallible() || rhs_def.is_fallible();
                     rhs_def.with_kind(K::boolean()).maybe_fallible(fallible)
                 } else {
